@@ -291,6 +291,13 @@ def file_typestate(repo: Repo, rep, P: str):
         hg = CFG(h)
         hcon = f"{sf.rel}:{hname}"
         rep.func(f"rv.readers.reader.{hname}")
+        if hname.startswith("_") and not any(isinstance(c, ast.Call) and norm(c.func) == hname for c in ast.walk(fn)) \
+                and _only_called_from(repo, hname, (sf.rel, "read_sunvox_file")):
+            # a private helper of read_sunvox_file only, read through into it above: its open() is one of the acquisitions examined
+            # there (with the caller's clean-up stack in view), not a hand-over to unknown callers
+            rep.ok(f"{P}.R3", hcon, f"{hname}(…)", "opened inside read_sunvox_file's own helper: examined as part of read_sunvox_file", nontrivial=False)
+            openers.discard(hname)
+            continue
         hacq = [n for n in hg.nodes if n.kind == "stmt" and isinstance(n.ast, (ast.Assign, ast.Expr, ast.Return, ast.AugAssign))
                 and _is_open_call(n.ast)]
         for a in hacq:
